@@ -278,3 +278,41 @@ Theorem C19_folders_beat_boards : exists t,
   lenZ (spec_file t) = 14790 /\ 6 + ptt_fav.MAX_FAV * 14 < 14790 /\ load (spec_file t) = ROk (renumber t).
 Proof. exact folders_beat_boards. Qed.
 Print Assumptions C19_folders_beat_boards.
+
+(* Kill points at SYSTEM-CALL granularity. The harness runs the saving child under ptrace(2), records every file-system
+   call of the save as the kernel sees it (open for writing, write, rename, unlink, ...) and kills the child at the
+   entry of the k-th call, for every k (run_case op 9). A call list is a list of Model/C19.v `call` (the operations of
+   Base/Fs.v plus unlink), executed by cexec; save_calls is the list of FavRaw.Save as coded - compared call by call
+   with what ptrace recorded. For EVERY consistent tree, EVERY initial directory and EVERY number n of calls executed
+   before the kill: .fav is exactly as before or exactly the complete new image, which Load reads as the new tree, and
+   no other file but the temporary one changes ... *)
+Theorem C19_save_calls_any_disk : forall (z : bool) (f : fav) (rel : Z) (disk : fs), lvl z f ->
+  exists f1, cleanup f = Ok f1 /\ wf_fav f1 /\
+    (forall n, let disk' := cexec disk (firstn n (save_calls rel (lookup FN_FAV disk) f)) in
+       (lookup FN_FAV disk' = lookup FN_FAV disk \/
+        (writes rel (lookup FN_FAV disk) = true /\ lookup FN_FAV disk' = Some (spec_file f1) /\
+         load (spec_file f1) = ROk (renumber f1))) /\
+       (forall m, m <> FN_FAV -> m <> FN_TMP -> lookup m disk' = lookup m disk)).
+Proof. exact save_calls_any_disk. Qed.
+Print Assumptions C19_save_calls_any_disk.
+
+(* ... in particular an existing .fav is there at the entry of every call of the save. *)
+Theorem C19_save_calls_keep_fav : forall (z : bool) (f : fav) (rel : Z) (disk : fs) (c : list Z),
+  lvl z f -> lookup FN_FAV disk = Some c ->
+  forall n, lookup FN_FAV (cexec disk (firstn n (save_calls rel (lookup FN_FAV disk) f))) <> None.
+Proof. exact save_calls_keep_fav. Qed.
+Print Assumptions C19_save_calls_keep_fav.
+
+(* Why the kill points must be the system calls and not the steps of the source: a save whose last STEP is a "force
+   rename" (unlink the target if it exists, then rename(2) - one call in the source, two calls for the kernel) has, for
+   EVERY tree and EVERY existing .fav that the gate lets it replace, a kill point (the entry of the final rename) at
+   which the directory holds no .fav at all - neither the complete old nor the complete new version - although the
+   completed list leaves a .fav. A statement about the alternative call list, showing that the sweep of op 9
+   distinguishes the two (the same list differs from save_calls by the one unlink that ptrace shows). *)
+Theorem C19_force_rename_torn : forall (z : bool) (f : fav) (rel : Z) (disk : fs) (c : list Z),
+  lvl z f -> lookup FN_FAV disk = Some c -> 0 < rel ->
+  let cs := force_rename_calls rel (Some c) f in
+  exists n, (n < length cs)%nat /\ lookup FN_FAV (cexec disk (firstn n cs)) = None /\
+            lookup FN_FAV (cexec disk cs) <> None.
+Proof. exact force_rename_torn. Qed.
+Print Assumptions C19_force_rename_torn.
